@@ -4,6 +4,7 @@ import tracemalloc
 
 from pbt import budget, canon, decode_domain as D
 from pbt.lib import frame
+from pbt import fuzzrun
 from pbt.runner import Component, Violation
 
 PROPERTY_ID = 'C08'
@@ -187,4 +188,10 @@ COMPONENTS = [
     Component('alloc-faulted', check_alloc, strategy=D.seed_fault_cases,
               budget={'quick': 3200, 'thorough': 64000},
               describe='allocation bound on faulted catalogue frames'),
+    Component('fuzz', check, bulk=fuzzrun.make_bulk('C08', 'C08', {'quick': 60000,
+                                                               'thorough': 3000000}),
+              distinct_by_construction=True,
+              shards={'quick': 4, 'thorough': 16},
+              describe='atheris coverage-guided campaigns (oracle inside the target); '
+                       'every 4th campaign starts from an empty corpus'),
 ]
